@@ -440,6 +440,60 @@ theorem C13_read_nested (S : Tag → Prop) (G d : Tag) (tmplr : List Item) (rest
   refine ⟨readSpecB rest es, ?_, readSpecB_length rest es, readSpecB_entry S d tmplr rest es hes⟩
   simp only [getGroup, readGroup_blocks S G d tmplr rest hS hSr hrest es hes hn _ hfuel]
 
+/-- THE TRIP THROUGH THE DICTIONARY-GUIDED PARSER FOR GROUPS WITH NESTED GROUPS: the wire of `C13_dict_depth2_group_mid` whose member fields
+    are, for the READER's template `d0 :: tmplr`, `n` entries of well-formed member blocks (`EntryOKB`: delimiter first, element fields
+    and nested groups that read back with their nested template) — after `ParseMessage` with the dictionary, `GetGroup(template)` on the
+    body's field for `G` returns exactly `n` entries; entry `i` lists the i-th entry's member tags in wire order and maps each (distinct)
+    tag to a range starting with that member's fields (for a nested group: its count field and entries); the fields behind the group
+    stay outside it. -/
+theorem C13_dict_depth2_read_back (d : Dicts) (mt : Bytes) (G : Tag) (C : List DNode) (hg : OuterGroup d mt G C)
+    (S : Tag → Prop) (d0 : Tag) (tmplr : List Item) (es : List (List Block))
+    (t8 t9 t35 z0 t10 : TagValue) (preA postB : List TagValue) (s' : GState)
+    (hW : Walk2 d mt G C .outer (es.flatMap serBlocks) s')
+    (hS : ∀ t, t ∈ tmplTags (.elem d0 :: tmplr) → S t) (hSz : S z0.tag) (hzT : findItem (.elem d0 :: tmplr) z0.tag = none)
+    (hes : ∀ e ∈ es, EntryOKB S d0 tmplr e) (hn : es.length < 9223372036854775808)
+    (hw8 : IsWire t8) (hw9 : IsWire t9) (hw35 : IsWire t35) (hw10 : IsWire t10)
+    (h8 : t8.tag = 8) (h9 : t9.tag = 9) (h35 : t35.tag = 35) (h10 : t10.tag = 10) (hv : t35.value = mt)
+    (hpre : PlainFields d preA) (hGi : inInt64 G)
+    (hGh : isHeaderField d G = false) (hGt : isTrailerField d G = false)
+    (hz : PlainFields d (z0 :: postB)) (hzmC : isGroupMember z0.tag C = false) (hzmS : isGroupMember z0.tag (s'.members C) = false)
+    (hzh : isHeaderField d z0.tag = false) (hzt : isTrailerField d z0.tag = false)
+    (hzG : ∀ tv ∈ z0 :: postB, tv.tag ≠ G)
+    (hng10 : NoGroupTag d 10) (hh10 : isHeaderField d 10 = false)
+    (hbl : atoi t9.value = .ok ((fieldsLength (t8 :: t9 :: t35 :: ((preA ++ countTV G es.length :: es.flatMap serBlocks) ++ (z0 :: postB ++ [t10]))) : Nat) : Int)) :
+    ∃ (m : Message) (f : Field) (gs : List GEntry),
+      parseMessage Fixes.cur d (wireOf (t8 :: t9 :: t35 :: ((preA ++ countTV G es.length :: es.flatMap serBlocks) ++ (z0 :: postB ++ [t10])))) = .ok m ∧
+      alFind m.body.lookup G = some f ∧
+      getGroup (.elem d0 :: tmplr) (f.full m.fields) = .ok gs ∧ gs.length = es.length ∧
+      (∀ (i : Nat) (e : List Block), es[i]? = some e → ∃ g : GEntry, gs[i]? = some g ∧ g.tags = e.map (·.tag) ∧
+        ((e.map (·.tag)).Nodup → ∀ b ∈ e, ∃ tail, alFind g.lookup b.tag = some (b.tvs ++ tail))) ∧
+      ((∀ tv ∈ postB, tv.tag ≠ z0.tag) → m.body.getBytes m.fields z0.tag = .ok z0.value) := by
+  have hg0 : IsWire (countTV G es.length) := canonTV_isWire _ (canon_init G _ (fun c hc => by
+      have := List.all_eq_true.1 (fmtNat_all_digits es.length) c hc
+      have := (isDigit_iff c).1 this; unfold SOH; omega) hGi)
+  obtain ⟨m, hparse, hfields, hfind, hz0find⟩ := parse_dict_walk2_mid hg t8 t9 t35 (countTV G es.length) z0 t10 preA (es.flatMap serBlocks) postB s' hW
+    hw8 hw9 hw35 hw10 h8 h9 h35 h10 hv hpre hg0 rfl hGh hGt hz hzmC hzmS hzh hzt hzG hng10 hh10 hbl
+  obtain ⟨gs, hget, hlen, hent⟩ := C13_read_nested S G d0 tmplr (z0 :: postB ++ [t10]) hS
+    (fun f r hfr => by simp only [List.cons_append, List.cons.injEq] at hfr; rw [← hfr.1]; exact hSz)
+    (fun f r hfr => by simp only [List.cons_append, List.cons.injEq] at hfr; rw [← hfr.1]; exact hzT) es hes hn
+  refine ⟨m, _, gs, hparse, hfind, ?_, hlen, hent, ?_⟩
+  · rw [hfields]
+    have hL : t8 :: t9 :: t35 :: ((preA ++ countTV G es.length :: es.flatMap serBlocks) ++ (z0 :: postB ++ [t10])) =
+        (t8 :: t9 :: t35 :: preA) ++ countTV G es.length :: (es.flatMap serBlocks ++ (z0 :: postB ++ [t10])) := by simp
+    have e : 3 + preA.length = (t8 :: t9 :: t35 :: preA).length := by simp; omega
+    simp only [Field.full]
+    rw [hL, e, List.drop_left]
+    exact hget
+  · intro hpz
+    apply getBytes_view _ _ _ _ z0 (hz0find hpz)
+    rw [hfields]
+    have hL' : t8 :: t9 :: t35 :: ((preA ++ countTV G es.length :: es.flatMap serBlocks) ++ (z0 :: postB ++ [t10])) =
+        (t8 :: t9 :: t35 :: (preA ++ countTV G es.length :: es.flatMap serBlocks)) ++ z0 :: (postB ++ [t10]) := by simp
+    rw [hL', List.getElem?_append_right (by simp; omega)]
+    have : 3 + preA.length + 1 + (es.flatMap serBlocks).length - (t8 :: t9 :: t35 :: (preA ++ countTV G es.length :: es.flatMap serBlocks)).length = 0 := by
+      simp; omega
+    rw [this]; rfl
+
 /-- a group as in `C13_read_nested` is itself a well-formed nested block of an enclosing group: it reads back (and is skipped)
     whenever what follows carries a tag of `S'` that is allowed inside (`S`) and is not one of its template tags -/
 theorem C13_nested_group_is_block (S S' : Tag → Prop) (G d : Tag) (tmplr : List Item)
@@ -593,6 +647,7 @@ example :
    "same fields and values in the same order"                 C13_roundtrip_flat (Write then Read, templates without nesting, any setter calls),
                                                              C13_read_inverts_wire_flat (whole Read, templates without nesting);
                                                              C13_read_member, C13_read_delimiter (one step each, any template); nested: C13_roundtrip_nodict_full
+   with the dictionary, nested groups: parse + GetGroup(nested template)           C13_dict_depth2_read_back
    with the dictionary, group containing nested groups (D6 scenario), whole parse   C13_dict_depth2_group_mid, C13_dict_depth2_group_last (any arrangement of
                                                              two levels), C13_dict_nested_group_mid
    "fields following the group are still found"              C13_read_stops_at_follower; with dictionary: C13_dict_depth2_group_mid, C13_dict_nested_group_mid, C13_fixed_behind_nested_group
